@@ -122,7 +122,10 @@ class StructureMetaType(MetaType):
         classdict["__fields__"] = fields
         classdict["__bool__"] = _generate__bool__(field_names)
 
-        defaults = [field.type.__default__() for field in raw_lookup.values()]
+        # A bit field with a char storage unit is read (and written) as an integer, so its zero value is 0 and not b"\x00"
+        defaults = [
+            0 if field.bits and issubclass(field.type, bytes) else field.type.__default__() for field in raw_lookup.values()
+        ]
         classdict["__mutable_defaults__"] = tuple(
             (field._name, default, field.type)
             for field, default in zip(raw_lookup.values(), defaults)
